@@ -73,10 +73,10 @@ CLAIMS = {
     },
     "C05": {
         "engine": "V+T+K",
-        "technique": "Verus on the extracted render_component/render_include (depth guard; interpret's precondition is the depth invariant), engine T on the VM call graph, Kani table for type matching",
-        "text": "Proof: render_component returns Err before rendering anything once depth + 1 exceeds MAX_COMPONENT_RECURSION_DEPTH and runs the nested VM at depth + 1; render_include passes the depth through unchanged; every call cycle of the VM through render_component passes that guard.",
-        "note": "build_context, isolation, priority and API/template equivalence are not decided.",
-        "design_ref": "DESIGN.md section 4 C05",
+        "technique": "Verus on the extracted real ComponentDefinition::build_context (two loops, closure parameter, ghost lookup function), render_component / render_include (depth guard), engine T on the VM call graph, Kani table for type matching",
+        "text": "Proof for all definitions, argument sets and lookup functions: build_context rejects undeclared arguments when no rest parameter is declared, rejects a value that does not match the declared/inferred type and a missing required argument, and on success returns a context that binds every declared parameter to the caller's value else the default, holds the rest map (exactly the undeclared arguments with their values) under the rest name and the body under `body`, and NOTHING else (isolation); the internal unreachable!() is proved unreachable. render_component returns Err before rendering once depth + 1 exceeds the limit and runs the nested VM at depth + 1 with the same autoescape override; render_include passes depth and override through; every VM call cycle through render_component passes that guard.",
+        "note": "The type table (type_matches) is a trusted declaration in the Verus unit and proved by Kani group types; the component! macro arm of interpret (lookup priority, minting the result safe), the priority table in finalize_templates and API/template equivalence are not decided.",
+        "design_ref": "DESIGN.md section 0.3, section 4 C05",
     },
     "C06": {
         "engine": "V+T+K",
